@@ -34,6 +34,7 @@ func tagsFor(wt int) [][]byte {
 }
 
 func c05Work(c *mc.Ctx) {
+	baseDone := map[string]bool{}
 	enumItems(c, withRecursive(ref.Universe(c.Tier)), func(c *mc.Ctx, cfg ref.Cfg, it ref.Item, v ref.V, vs string, undoc string) {
 		pre := fmt.Sprintf("%s|%s|%s|%s", cfg, it.Pos, it.T, undoc)
 		c.Guard(pre, func() {
@@ -72,7 +73,8 @@ func c05Work(c *mc.Ctx) {
 			}
 		})
 		// the base type's own codec under its option, once per (base, option, cfg)
-		if it.Pos == "field" {
+		if it.Pos == "field" && !baseDone[cfg.String()+"|"+it.T.String()] {
+			baseDone[cfg.String()+"|"+it.T.String()] = true
 			bvals := ref.Values(it.Base, 1)
 			key := fmt.Sprintf("%s|base|%s|%s|", cfg, it.Base, it.Opt)
 			for _, bv := range bvals {
